@@ -16,7 +16,8 @@ DTYPES = ["uint8", "uint16", "uint32", "uint64", "int8", "int16", "int32", "int6
 RULE = ("correspondence: the model's dtype table (promotion with float32, value range) vs the live NumPy for all ten "
         "dtypes; log_scale / log_scale_cropbufs_inplace on arrays holding the dtype's extremes vs log of the model's exact "
         "argument; oracle: both batch entry points on the same pixel values in every dtype vs float64 input (centres equal, "
-        "other outputs to float32 rounding), values spanning the whole range of 8/16-bit types, up to 2^24 for wider ones. "
+        "other outputs to float32 rounding), values spanning the whole range of 8/16-bit types, up to 2^24 for wider ones, plus a small signal on a constant level of 2^30 / 2^50 for 32 / 64-bit "
+        "integers (exact in the integer dtype and in float64, not in float32). "
         "exhaustive over the dtype list. Non-trivial: integer dtype whose values include both extremes (distinct = hashes).")
 ASSUMPTIONS = ["A-FLOAT: after the (exact) log argument, log / FFT / kernels run in float32 or float64; agreement 'to float32 "
                "rounding' is checked by the oracle, not proved"]
@@ -74,6 +75,11 @@ def values_for(rng, name, shape, spread):
         lo, hi = -2 ** 20, 2 ** 24
     if spread == "narrow":
         lo, hi = max(lo, 0), min(hi, 100)
+    if spread == "pedestal":
+        # small signal on a large constant level: exactly representable in the integer dtype and in float64, but not
+        # in float32 -- the float64 route and the integer route must still agree
+        level = {4: 2 ** 30, 8: 2 ** 50}[dt.itemsize] * (-1 if (dt.kind == "i" and rng.random() < 0.5) else 1)
+        lo, hi = level, level + 110
     base = rng.poisson(12, shape).astype(np.float64)
     for _ in range(4):
         cy, cx = rng.integers(4, shape[0] - 4), rng.integers(4, shape[1] - 4)
@@ -125,7 +131,7 @@ def search(ctx, boost=1, focus=()):
     reps = (4 if ctx.tier == "thorough" else 1) * boost
     for rep in range(reps):
         for k, name in enumerate(DTYPES):
-            for spread in ("full", "narrow"):
+            for spread in ("full", "narrow") + (("pedestal",) if (np.dtype(name).kind in "iu" and np.dtype(name).itemsize >= 4) else ()):
                 pat = impl.pattern_params(rng, kinds=("radial_gradient", "background_subtraction", "circular"), rmin=2, rmax=4)
                 c = int(np.ceil(pat["search"]))
                 shape = [int(rng.integers(2 * c + 8, 40)), int(rng.integers(2 * c + 8, 40))]
@@ -134,7 +140,7 @@ def search(ctx, boost=1, focus=()):
                 p = {"seed": int(rng.integers(1 << 30)), "dtype": name, "spread": spread, "pattern": pat,
                      "shape": shape, "peaks": peaks.tolist()}
                 ctx.oracle_case("dtype", p, run_case("dtype", p),
-                                nontrivial=(np.dtype(name).kind in "iu" and spread == "full"))
+                                nontrivial=(np.dtype(name).kind in "iu" and spread != "narrow"))
                 ctx.count("oracle_" + name)
 
 
